@@ -812,9 +812,14 @@ def make_world(layout: str, origin_vertex: bool = False) -> dict:
     return w
 
 
-def filler(i: int) -> tuple[bytes, int]:
-    """Deterministic content + version for the lumps that have no structured view."""
-    n = [5, 12, 33, 64, 7][i % 5] if i % 4 == 1 else 0   # a handful of non-empty view-less lumps
+def filler(i: int, rich: bool = True) -> tuple[bytes, int]:
+    """Deterministic content + version for the lumps that have no structured view.  rich: every such lump is
+    non-empty; otherwise only a handful (used for the fully LZMA-compressed files, where every non-empty lump costs
+    an LZMA encoder set-up per save)."""
+    if rich:
+        n = [5, 12, 33, 64, 7, 1, 20][i % 7]
+    else:
+        n = [5, 12, 33, 64, 7][i % 5] if i % 4 == 1 else 0
     data = hashlib.sha256(b'lump%d' % i).digest() * 3
     if i % 8 == 1:
         data = data[:3] + bytes(40) + data[3:]  # some compressible content
@@ -1177,7 +1182,7 @@ def synth_file(layout: str, compress: str = 'none', game_comp: bool = False, ori
             elif i == L.FACES.value or i == L.FACES_HDR.value:
                 ver = 1
         else:
-            data, ver = filler(i)
+            data, ver = filler(i, rich=compress != 'all')
         if i == L.ENTITIES.value:
             ver = 0  # the L4D2 header probe looks at this field
         comp = compress == 'all' or (compress == 'one' and i == L.LEAFS.value)
@@ -1211,6 +1216,8 @@ def trimmed_sample(n_ents: int = 40) -> bytes:
     path = os.path.join(core.REPO, 'tests/test_vec/rot_main.bsp')
     with open(path, 'rb') as f:
         raw = f.read()
+    if n_ents <= 0:
+        return raw
     p = parse_file(raw, False)
     ents = p['lumps'][L.ENTITIES.value]['data']
     pos = 0
